@@ -1,4 +1,4 @@
-CONSTANTS Scope = "table" TableLo = 1 NTable = 7 MaxLen = 9 RunCalls = TRUE FreeJitter = TRUE Mutant = "none"
+CONSTANTS Scope = "table" TableLo = 1 NTable = 7 MaxLen = 9 RunCalls = TRUE Transports = {"grpc", "rest"} FreeJitter = TRUE Mutant = "none"
 SPECIFICATION TSpec
 CONSTRAINT Progress
 INVARIANT Inv_Resolve
@@ -15,5 +15,6 @@ INVARIANT Inv_Unnamed
 INVARIANT Inv_NoPolicy
 INVARIANT Inv_Override
 INVARIANT Inv_Counts
+INVARIANT Inv_RestDomain
 POSTCONDITION Accepted
 CHECK_DEADLOCK FALSE
